@@ -947,7 +947,12 @@ impl AsnDefWriter {
                 (extended_field, field)
             })
             .collect::<Vec<_>>();
-        fields.sort_by(|a, b| (a.0, &a.1.tag).cmp(&(b.0, &b.1.tag)));
+        // ITU-T X.691 | ISO/IEC 8825-2, 21.1: only the root components are sorted, the extension
+        // additions follow in the order of their definition (the sort is stable)
+        fields.sort_by(|a, b| match (a.0, b.0) {
+            (false, false) => a.1.tag.cmp(&b.1.tag),
+            (a_extended, b_extended) => a_extended.cmp(&b_extended),
+        });
         fields.into_iter().map(|(_, field)| field).collect()
     }
 }
